@@ -7,6 +7,7 @@ import (
 	"fmt"
 	"io"
 	"math"
+	"net"
 	"net/http"
 	"strconv"
 	"strings"
@@ -137,7 +138,7 @@ type StackCase struct {
 
 // "temperr": a net.Error that is Temporary() but not Timeout() (e.g. a DNS SERVFAIL):
 // the documented predicate does not retry it
-var alphabet = []string{"401basic", "401bearer", "408", "429", "500", "502", "503", "504", "timeout", "neterr", "temperr", "200", "201", "404", "400"}
+var alphabet = []string{"401basic", "401bearer", "408", "429", "500", "502", "503", "504", "timeout", "dialtimeout", "neterr", "temperr", "200", "201", "404", "400"}
 
 func genStack(t *rapid.T) StackCase {
 	c := StackCase{}
@@ -148,7 +149,7 @@ func genStack(t *rapid.T) StackCase {
 	}
 	c.Script = append(c.Script, "200")
 	c.Partial = append(c.Partial, false)
-	c.BodyKind = rapid.SampledFrom([]string{"none", "nobody", "replayable", "replayable", "custom-getbody", "getbody-fails", "oneshot", "oneshot"}).Draw(t, "bodyKind")
+	c.BodyKind = rapid.SampledFrom([]string{"none", "nobody", "replayable", "replayable", "custom-getbody", "closable-getbody", "getbody-fails", "oneshot", "oneshot"}).Draw(t, "bodyKind")
 	c.Size = rapid.SampledFrom([]int{0, 1, 17, 4096, 70000, 262144}).Draw(t, "size")
 	c.Unknown = rapid.IntRange(0, 3).Draw(t, "unknown") == 0
 	c.Undeclared = !c.Unknown && rapid.IntRange(0, 3).Draw(t, "undeclared") == 0
@@ -172,6 +173,20 @@ type timeoutErr struct{}
 func (timeoutErr) Error() string   { return "verif: i/o timeout" }
 func (timeoutErr) Timeout() bool   { return true }
 func (timeoutErr) Temporary() bool { return true }
+
+// closable is a body that, like a file, cannot be read after Close.
+type closable struct {
+	r      io.Reader
+	closed bool
+}
+
+func (c *closable) Read(p []byte) (int, error) {
+	if c.closed {
+		return 0, errors.New("verif: read of closed body")
+	}
+	return c.r.Read(p)
+}
+func (c *closable) Close() error { c.closed = true; return nil }
 
 type tempErr struct{}
 
@@ -264,6 +279,8 @@ func (s *server) RoundTrip(req *http.Request) (*http.Response, error) {
 		return nil, errors.New("verif: connection reset")
 	case "temperr":
 		return nil, tempErr{}
+	case "dialtimeout":
+		return nil, &net.OpError{Op: "dial", Net: "tcp", Err: timeoutErr{}}
 	case "429":
 		return mk(429, http.Header{"Retry-After": []string{"0"}})
 	}
@@ -291,7 +308,7 @@ func (o *oneShot) Read(p []byte) (int, error) { return o.r.Read(p) }
 
 func retryable(sym string) bool {
 	switch sym {
-	case "408", "429", "500", "502", "503", "504", "timeout":
+	case "408", "429", "500", "502", "503", "504", "timeout", "dialtimeout":
 		return true
 	}
 	return false
@@ -345,12 +362,19 @@ func runStackInner(c StackCase) (res vt.Result, fail *vt.Fail) {
 		body = bytes.NewReader(payload)
 	case "custom-getbody", "oneshot", "getbody-fails":
 		body = &oneShot{bytes.NewReader(payload)}
+	case "closable-getbody":
+		body = &closable{r: bytes.NewReader(payload)}
 	}
 	req, err := http.NewRequest(http.MethodPut, "https://srv.test/v2/a/blobs/uploads/x?digest=sha256:00", body)
 	if err != nil {
 		return res, vt.Failf("harness/newrequest", "%v", err)
 	}
-	hasBody := c.BodyKind == "replayable" || c.BodyKind == "custom-getbody" || c.BodyKind == "oneshot" || c.BodyKind == "getbody-fails"
+	hasBody := c.BodyKind == "replayable" || c.BodyKind == "custom-getbody" || c.BodyKind == "oneshot" || c.BodyKind == "getbody-fails" || c.BodyKind == "closable-getbody"
+	if c.BodyKind == "closable-getbody" {
+		// like an *os.File: unreadable once closed, GetBody opens it again
+		req.GetBody = func() (io.ReadCloser, error) { return &closable{r: bytes.NewReader(payload)}, nil }
+		req.ContentLength = int64(len(payload))
+	}
 	if c.BodyKind == "getbody-fails" {
 		// nominally replayable, but the body cannot be produced again (a spool file
 		// that is gone): like a one-shot body, it must never be re-sent truncated
